@@ -3,7 +3,7 @@ import re
 
 from . import core
 
-THEOREMS = []
+THEOREMS = ["Goag.JsonM.allOf_ref_encodes_like_inline", "Goag.JsonM.allOf_ref_decodes_like_inline", "Goag.JsonM.toJFields_append"]
 TRUSTED = [
     "Lean 4.33.0 kernel; axioms propext, Classical.choice, Quot.sound only (audited by #print axioms)",
     "the harness's inlining of references (replace every #/components/... reference by a deep copy of its target; members of a discriminated oneOf are kept) as the meaning of 'inline copy'",
